@@ -10,6 +10,7 @@ package race
 import (
 	"fmt"
 	"math/rand"
+	"os"
 	"sync"
 	"testing"
 
@@ -19,6 +20,17 @@ import (
 	"helm.sh/helm/v4/pkg/storage"
 	"helm.sh/helm/v4/pkg/storage/driver"
 )
+
+// scale: C09_HAMMER=quick runs a short hammer (quick tier), otherwise the full one
+func scale(n int) int {
+	if os.Getenv("C09_HAMMER") == "quick" {
+		if n/6 < 40 {
+			return 40
+		}
+		return n / 6
+	}
+	return n
+}
 
 func rel(name string, v int, st rspb.Status) *rspb.Release {
 	return &rspb.Release{Name: name, Namespace: "default", Version: v, Info: &rspb.Info{Status: st},
@@ -71,14 +83,14 @@ func hammer(t *testing.T, d driver.Driver, workers, iters int) {
 	wg.Wait()
 }
 
-func TestMemoryHammer(t *testing.T) { hammer(t, driver.NewMemory(), 8, 3000) }
+func TestMemoryHammer(t *testing.T) { hammer(t, driver.NewMemory(), 8, scale(3000)) }
 
 func TestSecretsHammer(t *testing.T) {
-	hammer(t, driver.NewSecrets(fake.NewSimpleClientset().CoreV1().Secrets("default")), 8, 250)
+	hammer(t, driver.NewSecrets(fake.NewSimpleClientset().CoreV1().Secrets("default")), 8, scale(250))
 }
 
 func TestConfigMapsHammer(t *testing.T) {
-	hammer(t, driver.NewConfigMaps(fake.NewSimpleClientset().CoreV1().ConfigMaps("default")), 8, 250)
+	hammer(t, driver.NewConfigMaps(fake.NewSimpleClientset().CoreV1().ConfigMaps("default")), 8, scale(250))
 }
 
 // the storage layer the actions use (History / Last / Deployed / Create with pruning) over one memory driver
@@ -92,7 +104,7 @@ func TestStorageLayerHammer(t *testing.T) {
 			s := storage.Init(mem) // one Storage per "operation", shared driver
 			s.MaxHistory = 1 + w%4
 			r := rand.New(rand.NewSource(int64(w) + 100))
-			for i := 0; i < 1500; i++ {
+			for i, n := 0, scale(1500); i < n; i++ {
 				v := 1 + r.Intn(8)
 				switch r.Intn(6) {
 				case 0:
